@@ -12,6 +12,7 @@ import Driver.Shmem
 import Driver.Helpers
 import Driver.Restrict
 import Driver.Conc
+import Driver.Dup
 open Driver
 
 def main (args : List String) : IO UInt32 := do
@@ -62,6 +63,9 @@ def main (args : List String) : IO UInt32 := do
     return 0
   | ["conc"] =>
     lineLoop stdin stdout () ConcEng.stepConc
+    return 0
+  | ["dup"] =>
+    lineLoop stdin stdout ({} : DupEng.St) DupEng.step
     return 0
   | _ =>
     IO.eprintln "usage: hwmodel <engine>"
